@@ -943,7 +943,7 @@ func (in *Interp) visitInstr(fr *frame, instr ssa.Instruction) continuation {
 		if p == nil {
 			panic(goPanic{msg: "nil pointer dereference (store)"})
 		}
-		*p = copyVal(fr.get(instr.Val))
+		in.assignInto(p, fr.get(instr.Val))
 	case *ssa.If:
 		c := fr.get(instr.Cond).(*smt.Term)
 		succ := 1
